@@ -113,8 +113,8 @@ def undo_renames(modules: dict, known_table: dict) -> tuple[list[str], dict]:
             # who calls it: a helper called from the same functions the same number of times, with the same number of
             # parameters, is the same helper even when its (small) body was rewritten
             cur_callers = {c: n for c, n in profile.get(node.name, {}).items() if c != key}
-            if not same_name and want_callers and cur_callers == want_callers and want_arity == arity(node):
-                s = max(s, 0.7 + 0.25 * min(score, back))
+            if not same_name and want_callers and cur_callers == want_callers:
+                s = max(s, 0.5 + 0.5 * min(score, back) + (0.2 if want_arity == arity(node) else 0.0))
             if urel == rel:
                 s += 0.05
             scored.append((s, key, urel, node, kind, owner))
